@@ -1,4 +1,5 @@
 import Mitx.Model.SumG
+import Mitx.Lemmas.Rename
 import Mitx.Props.C04
 import Mathlib.Algebra.BigOperators.Group.Finset.Basic
 import Mathlib.Algebra.BigOperators.Intervals
@@ -274,5 +275,23 @@ example : performSummation (fun n => n * n) (.fin 3) (.fin (-2)) 0 1000 = .ok (4
 example : performSummation (fun n => n) (.fin (-3)) (.fin 6) 1 1000 = .ok (-3 + -1 + 1 + 3 + 5 : Int) := by decide
 example : performSummation (fun n => n) (.fin (-3)) (.fin 6) 2 1000 = .ok (-2 + 0 + 2 + 4 + 6 : Int) := by decide
 example : performSummation (fun n => n) (.fin 1) .pinf 0 4 = .ok (1 + 2 + 3 + 4 : Int) := by decide
+
+/-- **The summation variable may be renamed freely.** The summand is a parse tree `t` evaluated with the summation
+    variable bound to the running index on top of the scope `A` (any operator algebra: floats, complex numbers, arrays).
+    Renaming the variable `v` to any name `v'` that does not occur in the summand — in the summand and in the
+    summation-variable field alike — gives the same sum, or the same error, provided neither name already has a meaning. -/
+theorem sum_rename {V : Type} [Add V] [Zero V] (A : C03.Alg V) (ofInt : Int → V) (scope : List String) (v v' : String) (t : C03.T)
+    (hfresh : (C03.Kind.var, v') ∉ C03.names t) (hv : scope.contains v = false) (hv' : scope.contains v' = false)
+    (lo hi : LimVal) (uf : Bool) (iv ifa : Int) (eo : Nat) :
+    evaluateSum scope v' lo hi uf iv ifa eo (fun n => C03.evalT (A.bind v' (ofInt n)) (C03.mapVars (C03.rename1 v v') t))
+      = evaluateSum scope v lo hi uf iv ifa eo (fun n => C03.evalT (A.bind v (ofInt n)) t) := by
+  have hf : (fun n => C03.evalT (A.bind v' (ofInt n)) (C03.mapVars (C03.rename1 v v') t))
+      = (fun n => C03.evalT (A.bind v (ofInt n)) t) := by
+    funext n; exact C03.evalT_rename_bound A v v' (ofInt n) t hfresh
+  rw [hf]
+  unfold evaluateSum
+  have h1 : ¬ v ∈ scope := by simpa using hv
+  have h2 : ¬ v' ∈ scope := by simpa using hv'
+  simp only [List.contains_iff_mem, h1, h2, ↓reduceIte]
 
 end C19
